@@ -754,6 +754,54 @@ Proof.
   - apply (proj1 (subseq_b_skip_tail eq _)). exact IH.
 Qed.
 
+Theorem respond_attributes_exact cfg cp rt rq s now tnow addr relay rnd action resp rl :
+  respond cfg cp rt rq s now tnow addr relay rnd = Ok (action, resp, rl) ->
+  a_attributes (fst (inner_assertion resp)) = session_attributes (choose_attr_service (attr_services (rt_desc rt))) s.
+Proof.
+  intro H. apply respond_inv in H. cbv zeta in H. destruct H as (ael & _ & _ & _ & Hin & _). rewrite Hin. cbn [fst].
+  pose proof (make_assertion_fields cfg rt rq s now tnow addr (rnd_saml rnd)) as F. cbv zeta in F. tauto.
+Qed.
+
+(* eduPersonPrincipalName carries the session's principal name, and the mail only as a fallback *)
+Lemma session_attributes_eppn svc s :
+  (ss_eppn s <> "" \/ ss_email s <> "") ->
+  In (uri_attr "eduPersonPrincipalName" "urn:oid:1.3.6.1.4.1.5923.1.1.1.6"
+               [xs_val (if nonempty (ss_eppn s) then ss_eppn s else ss_email s)])
+     (session_attributes svc s).
+Proof.
+  intro H. unfold session_attributes. do 3 (apply in_or_app; right). apply in_or_app. left.
+  assert (E : nonempty (ss_eppn s) || nonempty (ss_email s) = true).
+  { apply orb_true_iff. destruct H as [H | H]; [left | right]; apply nonempty_true_iff; exact H. }
+  rewrite E. left. reflexivity.
+Qed.
+
+Lemma respond_content_monitors cfg cp rt rq s now tnow addr relay rnd action resp rl :
+  respond cfg cp rt rq s now tnow addr relay rnd = Ok (action, resp, rl) ->
+  attrs_b s resp && signed_b cfg resp && attrs_exact_b (rt_desc rt) s resp = true.
+Proof.
+  intro E.
+  pose proof (respond_attrs_from_session _ _ _ _ _ _ _ _ _ _ _ _ _ E) as A.
+  pose proof (respond_both_signed _ _ _ _ _ _ _ _ _ _ _ _ _ E) as B.
+  pose proof (respond_attributes_exact _ _ _ _ _ _ _ _ _ _ _ _ _ E) as X.
+  cbv zeta in A. destruct A as (A1 & A2 & A3 & A4 & (pre & post & A5) & A6).
+  apply andb_true_iff; split; [apply andb_true_iff; split|].
+  - unfold attrs_b. rewrite A1, A2, A3, !seqb_refl, Z.eqb_refl. cbn [andb].
+    apply andb_true_iff; split; [apply andb_true_iff; split|].
+    + apply forallb_forall. intros a Ha. apply forallb_forall. intros v Hv.
+      destruct (A4 a v Ha Hv) as [V1 V2]. apply andb_true_iff. split; [apply mem_str_In; exact V1|].
+      destruct (av_nameid v) as [n|]; [apply mem_str_In; apply V2; reflexivity | reflexivity].
+    + rewrite A5. apply subseq_b_app. exact attribute_eqb_refl.
+    + unfold group_attr_ok. destruct (ss_groups s) as [|g0 gr] eqn:Eg; [reflexivity|].
+      apply existsb_exists. eexists. split; [apply A6; discriminate|].
+      cbn [uri_attr at_name at_values]. rewrite seqb_refl, (list_eqb_refl _ attrvalue_eqb_refl). reflexivity.
+  - unfold signed_b. destruct (inner_assertion resp) as [a sa].
+    destruct B as (B1 & B2 & B3 & B4 & B5 & B6 & B7 & B8 & B9 & _).
+    rewrite B1, B2, B3, B4, B5, B6, B7, B8.
+    rewrite !Z.eqb_refl, !seqb_refl, respbody_eqb_refl, assertion_eqb_refl.
+    apply mem_str_In in B9. rewrite B9. reflexivity.
+  - unfold attrs_exact_b. rewrite X. apply list_eqb_refl. exact attribute_eqb_refl.
+Qed.
+
 Theorem c06_spec_of_model cfg md certs rq sess now tnow addr relay rnd :
   let c0 := {| c6_cfg := cfg; c6_md := md; c6_certs := certs; c6_rq := rq; c6_sess := sess; c6_now := now;
                c6_tnow := tnow; c6_addr := addr; c6_relay := relay; c6_rnd := rnd; c6_obs := O6Err |} in
@@ -772,33 +820,17 @@ Proof.
     cbn [formobs_of]; [| reflexivity | contradiction].
   pose proof (respond_scoping _ _ _ _ _ _ _ _ _ _ _ _ _ E) as S.
   pose proof (respond_times _ _ _ _ _ _ _ _ _ _ _ _ _ E) as T.
-  pose proof (respond_attrs_from_session _ _ _ _ _ _ _ _ _ _ _ _ _ E) as A.
-  pose proof (respond_both_signed _ _ _ _ _ _ _ _ _ _ _ _ _ E) as B.
-  cbv zeta in S, T, A. cbn [mk_routing rt_ep rt_md] in S.
+  pose proof (respond_content_monitors _ _ _ _ _ _ _ _ _ _ _ _ _ E) as M. cbn [mk_routing rt_desc] in M.
+  cbv zeta in S, T. cbn [mk_routing rt_ep rt_md] in S.
   destruct S as (S1 & S2 & S3 & S4 & S5 & S6 & S7 & S8 & S9 & S10 & S11 & S12 & S13).
   destruct T as (T1 & T2 & T3 & T4 & T5 & T6).
-  destruct A as (A1 & A2 & A3 & A4 & (pre & post & A5) & A6).
-  apply andb_true_iff; split; [apply andb_true_iff; split; [apply andb_true_iff; split|]|].
+  apply andb_true_iff; split; [apply andb_true_iff; split|exact M].
   - unfold scoping_b. rewrite S1, S2, S3, S4, S5, S7, S8, S9, S10, S11, S12, S13.
     rewrite !seqb_refl. simpl. rewrite seqb_refl. reflexivity.
   - unfold times_b. rewrite T4, T5, T6, !Z.eqb_refl.
     destruct (now - max_clock_skew cfg <? rq_issue req) eqn:El.
     + destruct T2 as [-> ->]; [lia|]. rewrite !Z.eqb_refl. cbn [andb]. rewrite ?andb_true_r. apply Z.leb_le. lia.
     + destruct T3 as [-> ->]; [lia|]. rewrite !Z.eqb_refl. cbn [andb]. rewrite ?andb_true_r. apply Z.leb_le. lia.
-  - unfold attrs_b. rewrite A1, A2, A3, !seqb_refl, Z.eqb_refl. cbn [andb].
-    apply andb_true_iff; split; [apply andb_true_iff; split|].
-    + apply forallb_forall. intros a Ha. apply forallb_forall. intros v Hv.
-      destruct (A4 a v Ha Hv) as [V1 V2]. apply andb_true_iff. split; [apply mem_str_In; exact V1|].
-      destruct (av_nameid v) as [n|]; [apply mem_str_In; apply V2; reflexivity | reflexivity].
-    + rewrite A5. apply subseq_b_app. exact attribute_eqb_refl.
-    + unfold group_attr_ok. destruct (ss_groups sess) as [|g0 gr] eqn:Eg; [reflexivity|].
-      apply existsb_exists. eexists. split; [apply A6; discriminate|].
-      cbn [uri_attr at_name at_values]. rewrite seqb_refl, (list_eqb_refl _ attrvalue_eqb_refl). reflexivity.
-  - unfold signed_b. destruct (inner_assertion resp) as [a sa].
-    destruct B as (B1 & B2 & B3 & B4 & B5 & B6 & B7 & B8 & B9 & _).
-    rewrite B1, B2, B3, B4, B5, B6, B7, B8.
-    rewrite !Z.eqb_refl, !seqb_refl, respbody_eqb_refl, assertion_eqb_refl.
-    apply mem_str_In in B9. rewrite B9. reflexivity.
 Qed.
 
 (* ---------- non-vacuity: concrete accepted instances ---------- *)
@@ -1001,6 +1033,8 @@ Proof.
     pose proof (respond_not_panic c cp r q ss n t ad rl rn) as Hnp;
     destruct (respond c cp r q ss n t ad rl rn) as [[[action resp] rl']| |] eqn:E end;
     cbn [formobs_of]; [| reflexivity | contradiction].
+  pose proof (respond_content_monitors _ _ _ _ _ _ _ _ _ _ _ _ _ E) as M. cbn [mk_routing rt_desc] in M.
+  rewrite M. cbn [andb].
   destruct (advertises_key_b (kds d)) eqn:Ea.
   - pose proof (respond_no_plaintext _ _ (mk_routing md (di, ei, d, e)) _ _ _ _ _ _ _ _ _ _ Ea E) as (enc & id & He & Hd & Hr & _ & Hk & Hiv & Hkid & Hdid).
     rewrite He. rewrite <- enc_decision_spec. cbn [mk_routing rt_desc] in Hd. rewrite Hd.
